@@ -246,8 +246,8 @@ class ExpectationPropagation:
 
     @staticmethod
     def _check_valid_inputs(ts, mutation_rate, allow_unary):
-        if not mutation_rate > 0.0:
-            raise ValueError("Mutation rate must be positive")
+        if not (mutation_rate > 0.0 and np.isfinite(mutation_rate)):
+            raise ValueError("Mutation rate must be positive and finite")
         if not allow_unary and contains_unary_nodes(ts):
             raise ValueError("Tree sequence contains unary nodes, simplify first")
 
